@@ -690,8 +690,22 @@ impl rustc_driver::Callbacks for Cb {
         };
         // Phase 1: clone all mir_built bodies before anything can steal them.
         let mut bodies: Vec<(LocalDefId, Body<'tcx>)> = Vec::new();
-        for def in tcx.hir_body_owners() {
-            let b = tcx.mir_built(def).borrow().clone();
+        // Building the MIR of a function can const-evaluate an array length or a `const` it mentions, which steals
+        // that constant's own mir_built: named constants and statics are therefore cloned first (in source order),
+        // and a body that was stolen anyway (an anonymous array-length constant, a constant used by another constant)
+        // is skipped rather than read. Anonymous constants are NOT moved to the front: type-checking them before
+        // their parent changes method probing in the parent (observed: a spurious E0658 on `[u8; M]::as_slice`).
+        let mut owners: Vec<LocalDefId> = tcx.hir_body_owners().collect();
+        owners.sort_by_key(|d| match tcx.def_kind(d.to_def_id()) {
+            DefKind::Const { .. } | DefKind::AssocConst { .. } | DefKind::Static { .. } => 1,
+            _ => 2,
+        });
+        for def in owners {
+            let steal = tcx.mir_built(def);
+            if steal.is_stolen() {
+                continue;
+            }
+            let b = steal.borrow().clone();
             bodies.push((def, b));
         }
         // Phase 2: emit with resolution.
